@@ -695,3 +695,118 @@ pub fn game_replay(t: &Tables, input: &str) -> Value {
     }
     json!({"games": n, "plies": plies, "promotions": specials[2], "mismatches": mismatches})
 }
+
+// ---------------------------------------------------------------------------------------------
+// pairs of states for the hash: single-component perturbations (keys must differ) and transpositions (keys must agree)
+// ---------------------------------------------------------------------------------------------
+pub fn key_pairs(t: &Tables, seeds: &[String], dir: &str, nshards: usize, seed: u64, playouts: usize, plies: usize) -> Value {
+    let mut out = Shards::new(dir, "rules", nshards);
+    let mut rng = StdRng::seed_from_u64(seed);
+    let mut n = 0usize;
+    let (mut n_pert, mut n_trans) = (0u64, 0u64);
+    for i in 0..playouts {
+        let mut board = match BoardState::from_fen(&seeds[i % seeds.len()]) {
+            Ok(b) => b,
+            Err(_) => continue,
+        };
+        for _ply in 0..plies {
+            // (a) perturb one component of the position through the FEN loader
+            let base = to_fen(&board, 0, 1);
+            let fields: Vec<String> = base.split(' ').map(|x| x.to_string()).collect();
+            let mut variants: Vec<String> = Vec::new();
+            // side to move
+            let mut f = fields.clone();
+            f[1] = if f[1] == "w" { "b".to_string() } else { "w".to_string() };
+            variants.push(f.join(" "));
+            // one castling right toggled
+            for r in ['K', 'Q', 'k', 'q'] {
+                let mut f = fields.clone();
+                let cur = if f[2] == "-" { String::new() } else { f[2].clone() };
+                let newr: String = if cur.contains(r) { cur.replace(r, "") } else { "KQkq".chars().filter(|c| cur.contains(*c) || *c == r).collect() };
+                f[2] = if newr.is_empty() { "-".to_string() } else { newr };
+                variants.push(f.join(" "));
+            }
+            // en-passant field: set / cleared / other file
+            let mut f = fields.clone();
+            f[3] = if f[3] == "-" { if f[1] == "w" { "c6".to_string() } else { "c3".to_string() } } else { "-".to_string() };
+            variants.push(f.join(" "));
+            if fields[3] != "-" {
+                let mut f = fields.clone();
+                let file = fields[3].as_bytes()[0];
+                let other = if file == b'a' { 'b' } else { (file - 1) as char };
+                f[3] = format!("{}{}", other, &fields[3][1..]);
+                variants.push(f.join(" "));
+            }
+            // one square changed (piece removed / replaced / added), on a random square
+            for _ in 0..3 {
+                let s = rng.gen_range(1..=64u32);
+                let p = point_of(s);
+                let mut b2 = board.clone();
+                let cur = piece_code(b2.board[p.0][p.1]);
+                let mut newc = rng.gen_range(0..=12u32);
+                while newc == cur || newc == 6 || newc == 12 || cur == 6 || cur == 12 {
+                    if cur == 6 || cur == 12 {
+                        break;
+                    }
+                    newc = rng.gen_range(0..=12u32);
+                }
+                if cur == 6 || cur == 12 {
+                    continue;
+                }
+                b2.board[p.0][p.1] = match piece_from_code(newc) {
+                    Some(pc) => Square::Full(pc),
+                    None => Square::Empty,
+                };
+                variants.push(to_fen(&b2, 0, 1));
+            }
+            let a = BoardState::from_fen(&base).ok();
+            for v in variants {
+                if let (Some(a), Ok(b)) = (a.as_ref(), BoardState::from_fen(&v)) {
+                    out.emit(n % nshards, &json!({"ev": "keypair", "kind": "perturb", "a": t.state(a), "b": t.state(&b), "fa": base, "fb": v}));
+                    n += 1;
+                    n_pert += 1;
+                }
+            }
+            // (b) transpositions: m1 m2 m3 m4 against m3 m2 m1 m4 style reorderings found by key-free search:
+            // walk two plies ahead for each side in both orders when the same texts stay legal
+            let ms = generate_moves(&board, MoveGenerationMode::AllMoves, &t.hasher);
+            if ms.len() >= 2 {
+                for _try in 0..4 {
+                    let i1 = rng.gen_range(0..ms.len());
+                    let i3 = rng.gen_range(0..ms.len());
+                    if i1 == i3 {
+                        continue;
+                    }
+                    let (t1, t3) = (printed_move(&ms[i1]), printed_move(&ms[i3]));
+                    let r1 = generate_moves(&ms[i1], MoveGenerationMode::AllMoves, &t.hasher);
+                    if r1.is_empty() {
+                        continue;
+                    }
+                    let reply = &r1[rng.gen_range(0..r1.len())];
+                    let t2 = printed_move(reply);
+                    // order A: t1 t2 t3 ; order B: t3 t2 t1 (same reply in between)
+                    let walk = |order: [&String; 3]| -> Option<BoardState> {
+                        let mut b = board.clone();
+                        for tx in order {
+                            let nx = generate_moves(&b, MoveGenerationMode::AllMoves, &t.hasher);
+                            b = nx.into_iter().find(|m| &printed_move(m) == tx)?;
+                        }
+                        Some(b)
+                    };
+                    if let (Some(a), Some(b)) = (walk([&t1, &t2, &t3]), walk([&t3, &t2, &t1])) {
+                        out.emit(n % nshards, &json!({"ev": "keypair", "kind": "transpose", "a": t.state(&a), "b": t.state(&b),
+                                                      "fa": format!("{} via {} {} {}", base, t1, t2, t3), "fb": format!("{} via {} {} {}", base, t3, t2, t1)}));
+                        n += 1;
+                        n_trans += 1;
+                    }
+                }
+            }
+            if ms.is_empty() {
+                break;
+            }
+            board = ms[rng.gen_range(0..ms.len())].clone();
+        }
+    }
+    out.finish();
+    json!({"perturbations": n_pert, "transposition_candidates": n_trans})
+}
